@@ -83,6 +83,22 @@ fn build_ref(r: &Value, s: f64) -> Mesh {
         vpos.push(xyz(hi[0] + sl, hi[1], h));
         faces.push(vec![k, k + 1, k + 2]);
     }
+    // optional wall hanging from the edge u = hi[0] of the plate (see Selection.tla): the reference then has a crease
+    let wall = gi_or(r, "wall", 0);
+    if wall > 0 {
+        let k = vpos.len() as i64;
+        vpos.push(xyz(hi[0], lo[1], h - wall));
+        vpos.push(xyz(hi[0], hi[1], h - wall));
+        vpos.push(xyz(hi[0], hi[1], h));
+        vpos.push(xyz(hi[0], lo[1], h));
+        if r.get("wup").and_then(|b| b.as_bool()).unwrap_or(true) {
+            faces.push(vec![k, k + 1, k + 2]);
+            faces.push(vec![k, k + 2, k + 3]);
+        } else {
+            faces.push(vec![k, k + 2, k + 1]);
+            faces.push(vec![k, k + 3, k + 2]);
+        }
+    }
     build_mesh(&vpos, &faces, s)
 }
 
